@@ -212,6 +212,113 @@ Definition model_lp_after {P A} (others : R -> R) (r : tresult P A) (p : P) (a :
   end.
 
 (* ------------------------------------------------------------------------------------------ *)
+(* 3b. chained transformations: the new variable is transformed again                           *)
+(* ------------------------------------------------------------------------------------------ *)
+(* The new variable of a transformation carries Dist(transform_dist, ...), i.e. a
+   TransformedDistribution; transforming it again runs the same code with that distribution as
+   `var.dist_node.distribution`.  tfp: TransformedDistribution(d, bij)'s default event-space
+   bijector is bij(d's default) = Chain([bij, default of d]) (None if d has none). *)
+Definition td_default (td : tdist) : option bijector :=
+  option_map (fun db => Chain (td_bij td) db) (d_default (td_base td)).
+
+Definition dist_of_td (td : tdist) : dist_inst := mkDist (td_log_prob td) (td_default td).
+
+Section Chained.
+  Context {P A : Type}.
+  Variable D : P -> dist_inst.
+
+  (* one link of the chain: the entry point used and the bijector argument *)
+  Record link := mkLink { l_path : path; l_spec : bij_spec A }.
+
+  (* the distribution object the Dist node of the new variable builds, given the distribution d
+     of the variable being transformed (already instantiated at the current inputs) and the
+     current bijector inputs a; None: the code raises *)
+  Definition link_tdist (l : link) (d : dist_inst) (a : A) : option tdist :=
+    match l_path l with
+    | PVar => match l_spec l with
+              | BInst b => Some (inst_tdist (fun _ : unit => d) b tt)
+              | BCls Bc => cls_tdist (fun _ : unit => d) (Some Bc) tt a
+              | BDefault => cls_tdist (fun _ : unit => d) None tt a
+              end
+    | PDeprecated => dep_tdist (fun _ : unit => d) (l_spec l) tt a
+    end.
+
+  (* links and their bijector inputs, NEWEST first; the distribution of the newest variable *)
+  Fixpoint chain_dist (ls : list link) (p : P) (args : list A) : option dist_inst :=
+    match ls, args with
+    | [], [] => Some (D p)
+    | l :: older, a :: args' =>
+        match chain_dist older p args' with
+        | Some d => option_map dist_of_td (link_tdist l d a)
+        | None => None
+        end
+    | _, _ => None
+    end.
+
+  Definition chain_logpdf (ls : list link) (p : P) (args : list A) (t : R) : option R :=
+    option_map (fun d => d_logpdf d t) (chain_dist ls p args).
+
+  (* values of all older variables (nearest first, the original variable last) when the newest
+     variable has the value t: every variable's value node is the Calc of its own transformation *)
+  Fixpoint chain_up (ls : list link) (p : P) (args : list A) (t : R) : option (list R) :=
+    match ls, args with
+    | [], [] => Some []
+    | l :: older, a :: args' =>
+        match chain_dist older p args' with
+        | Some d =>
+            match r_value (transform_by (l_path l) (fun _ : unit => d) (l_spec l) tt a 0) tt a t with
+            | Some v => option_map (cons v) (chain_up older p args' v)
+            | None => None
+            end
+        | None => None
+        end
+    | _, _ => None
+    end.
+
+  (* initial value of the newest variable: the transformations are applied oldest first, each to
+     the current value of the variable it transforms *)
+  Fixpoint chain_init (ls : list link) (p : P) (args : list A) (v0 : R) : option R :=
+    match ls, args with
+    | [], [] => Some v0
+    | l :: older, a :: args' =>
+        match chain_init older p args' v0, chain_dist older p args' with
+        | Some v, Some d => r_init (transform_by (l_path l) (fun _ : unit => d) (l_spec l) tt a v)
+        | _, _ => None
+        end
+    | _, _ => None
+    end.
+
+  (* the bijectors the links resolve to at the current inputs (newest first) *)
+  Fixpoint chain_resolve (ls : list link) (p : P) (args : list A) : option (list bijector) :=
+    match ls, args with
+    | [], [] => Some []
+    | l :: older, a :: args' =>
+        match chain_dist older p args', chain_resolve older p args' with
+        | Some d, Some bs => option_map (fun b => b :: bs) (resolve (fun _ : unit => d) (l_spec l) tt a)
+        | _, _ => None
+        end
+    | _, _ => None
+    end.
+End Chained.
+Arguments mkLink {A}.
+Arguments l_path {A}.
+Arguments l_spec {A}.
+
+(* composition of the resolved bijectors (newest first): newest variable -> original variable *)
+Fixpoint compose (bs : list bijector) : bijector :=
+  match bs with
+  | [] => bIdentity
+  | b :: older => Chain (compose older) b
+  end.
+
+(* images of t under the successive forwards: values of the older variables, nearest first *)
+Fixpoint images (bs : list bijector) (t : R) : list R :=
+  match bs with
+  | [] => []
+  | b :: older => fwd b t :: images older (fwd b t)
+  end.
+
+(* ------------------------------------------------------------------------------------------ *)
 (* 4. distribution families used by the correspondence (closed forms of tfp's log_prob)         *)
 (* ------------------------------------------------------------------------------------------ *)
 Definition normal_logpdf (loc scale x : R) : R :=
@@ -291,8 +398,9 @@ Definition tname (n : string) : string := (n ++ "_transformed")%string.
 Definition orig_after (v : var) : var :=
   mkVar (v_name v) false (v_observed v) false true false false.
 
+(* the TransformedDistribution offers a default event-space bijector iff the base distribution does *)
 Definition new_var (v : var) : var :=
-  mkVar (tname (v_name v)) (v_parameter v) false true false false true.
+  mkVar (tname (v_name v)) (v_parameter v) false true false false (v_default v).
 
 (* nodes.py:1238-1289 *)
 Definition var_transform_s (k : bkind) (v : var) : terr + (var * var) :=
@@ -350,4 +458,20 @@ Definition build_model_s (vs : list var) : terr + list var :=
   match auto_loop vs with
   | inl e => inl e
   | inr out => if nodupb (map v_name out) then inr out else inl EDupName
+  end.
+
+(* chained transformations, structural side: entry points (true: Var.transform) and argument
+   shapes OLDEST first; result: the original, the intermediate variables, the newest variable *)
+Fixpoint chain_s (ks : list (bool * bkind)) (v : var) : terr + list var :=
+  match ks with
+  | [] => inr [v]
+  | (vp, k) :: rest =>
+      match (if vp then var_transform_s k v else gb_transform_s k v) with
+      | inl e => inl e
+      | inr (v', tv) =>
+          match chain_s rest tv with
+          | inl e => inl e
+          | inr l => inr (v' :: l)
+          end
+      end
   end.
